@@ -262,7 +262,7 @@ pub fn run_in_child(desc: &RunDesc) -> ! {
         "list" => crate::fam_list::run(desc),
         "client" => crate::fam_client::run(desc),
         "ebr-private" => crate::fam_ebr::run_private(desc),
-        "chain" | "chain-stack" | "chain-weak" => crate::fam_chain::run(desc),
+        "chain" | "chain-stack" | "chain-weak" | "chain-mid" => crate::fam_chain::run(desc),
         _ => {
             if desc.cfg.align == 32 {
                 run_interp::<A32>(desc)
